@@ -124,11 +124,9 @@ Inductive fty :=
 (* Annotated[...] and Final[...] do not change what a field may hold *)
 Fixpoint unwrap (t: fty) : fty :=
   match t with TyAnnotated u | TyFinal u => unwrap u | _ => t end.
-(* is_field_nullable, type part: is_optional accepts two-member unions only *)
+(* is_field_nullable, type part = the type admits None (since /repo 906a805 every union that
+   contains None counts, not only the two-member Optional) *)
 Definition ty_nullable (t: fty) : bool :=
-  match unwrap t with TyAny | TyNoneType | TyNoneLit | TyOptional | TyTypeVarAny => true | _ => false end.
-(* the type admits None (what "None-valued" means for a conforming instance) *)
-Definition ty_admits_none (t: fty) : bool :=
   match unwrap t with TyAny | TyNoneType | TyNoneLit | TyOptional | TyTypeVarAny | TyUnionNone => true | _ => false end.
 
 Record fplan := {
@@ -314,15 +312,6 @@ Definition row_ok (r: row) : bool :=
   (nullable (fst r) && is_none (fst (snd r))) || negb (is_none (pval (fst r) (snd r))).
 Definition vals_ok (fs: list fplan) (vs: list fval) : bool :=
   Nat.eqb (List.length fs) (List.length vs) && forallb row_ok (combine fs vs).
-
-(* the same with the SEMANTIC notion "the field may hold None" (a conforming instance); it differs
-   from vals_ok exactly on unions of three or more members that contain None, which
-   is_field_nullable does not recognise (known finding omit-none-wide-union) *)
-Definition admits_none (p: fplan) : bool := ty_admits_none p.(p_ty) || nullable p.
-Definition row_sem (r: row) : bool :=
-  (admits_none (fst r) && is_none (fst (snd r))) || negb (is_none (pval (fst r) (snd r))).
-Definition vals_sem (fs: list fplan) (vs: list fval) : bool :=
-  Nat.eqb (List.length fs) (List.length vs) && forallb row_sem (combine fs vs).
 
 (* negation of the signature of known finding call-dialect-vs-flag-defaults (D14): the call
    passes dialect=D to a class with the keyword feature, does not pass the keyword itself, and
